@@ -665,6 +665,62 @@ pub fn run_depth_bound_case(out: &mut Out, rng: &mut Rng, thorough: bool) {
     out.count("depth-bound-scenario");
 }
 
+/// Directed family (C02, C03): small trees whose anchor children TIE on accumulated difficulty but
+/// differ in the number of blocks of their heaviest branch and in the depth of their subtree (a
+/// lighter but longer side branch): the tie-break order (difficulty, then blocks of the heaviest
+/// branch, then arrival) is observable only on such shapes.
+pub fn run_tie_shapes_case(out: &mut Out, rng: &mut Rng) {
+    let network = *rng.pick(&[Network::Regtest, Network::Mainnet, Network::Testnet]);
+    let thr = *rng.pick(&[30u32, 50, 144]);
+    let world = World::new(network, rng);
+    let mut case = Case { pre_ingest: None, walk: None, world, alive: vec![0], network, thr, mode: DiffMode::Ties };
+    c::fresh_init(network, thr as u128, None);
+    out.begin_case(&format!("ledger tie-shapes net={} thr={}", c::net_name(network), thr));
+    out.emit(&format!("c init {} {} {} {}", c::net_name(network), thr, c::block_text(&case.world.nodes[0].block, network), c::block_hex(&case.world.nodes[0].block)), "-");
+    let push = |out: &mut Out, case: &mut Case, rng: &mut Rng, parent: usize, difficulty: u128| -> usize {
+        let opts = BlockOpts { max_txs: 1, max_outputs: 2, many_outputs: None, difficulty, mine: false, time: None, bits: None };
+        let idx = case.world.new_block(rng, parent, &opts);
+        let block = case.world.nodes[idx].block.clone();
+        let text = format!("{} {}", c::block_text(&block, network), c::block_hex(&block));
+        out.emit(&format!("c push {}", text), &c::push_direct(block));
+        idx
+    };
+    let target: u128 = *rng.pick(&[8u128, 12, 20]);
+    let n_children = rng.range(2, 3);
+    let mut tips = vec![];
+    for _ in 0..n_children {
+        let first = push(out, &mut case, rng, 0, 1);
+        // heaviest branch: 1-3 blocks summing to target-1 (three times out of four exactly)
+        let total = if rng.chance(3, 4) { target - 1 } else { target - 1 + rng.range(0, 2) as u128 - 1 }.max(1);
+        let parts = rng.range(1, 3) as u128;
+        let mut p = first;
+        let mut left = total;
+        for j in 0..parts {
+            let d = if j + 1 == parts { left } else { (left / 2).max(1) };
+            if d == 0 { break; }
+            left -= d.min(left);
+            p = push(out, &mut case, rng, p, d);
+        }
+        tips.push(p);
+        // a lighter side branch of 0-6 blocks of difficulty 1 (its total stays below target-1)
+        let side = rng.range(0, 6).min(target as u64 - 2);
+        let mut q = first;
+        for _ in 0..side {
+            q = push(out, &mut case, rng, q, 1);
+        }
+        if side > 0 { tips.push(q); }
+    }
+    sync_alive(&mut case);
+    queries(out, rng, &case, false);
+    // one more block on a random tip (may break or create a tie), asked again
+    let t = *rng.pick(&tips);
+    let d = *rng.pick(&[1u128, 1, 2]);
+    push(out, &mut case, rng, t, d);
+    sync_alive(&mut case);
+    queries(out, rng, &case, true);
+    out.count("tie-shapes-scenario");
+}
+
 pub fn run(out: &mut Out, ctx: &crate::Ctx) {
     for k in 0..ctx.cases {
         if let Some(only) = ctx.only_case {
@@ -679,6 +735,10 @@ pub fn run(out: &mut Out, ctx: &crate::Ctx) {
         }
         if k == 2 && ctx.shard % 2 == 1 || (ctx.thorough && k % 16 == 9) {
             run_slices_case(out, &mut rng);
+            continue;
+        }
+        if k == 5 || (ctx.thorough && k % 8 == 3) {
+            run_tie_shapes_case(out, &mut rng);
             continue;
         }
         if k == 4 && ctx.shard % 2 == 0 || (ctx.thorough && k % 32 == 17) {
